@@ -104,6 +104,28 @@ def gen_case(r):
     return "(case (cfg %d %d %d %d) (evs %s))" % (local_rid, local_asn, local_hold, expected, " ".join(evs))
 
 
+def exhaustive(maxlen):
+    """Every history of length <= maxlen over a reduced alphabet (8 events x 2 roles), for the three
+    orderings of local vs remote identifier; remote AS/identifier fixed and valid."""
+    import itertools
+    alpha = []
+    for role in ("A", "P"):
+        for ev in ("(connected f)", "(open 65002 60 33686018)", "(open 65003 60 33686018)", "keepalive", "update",
+                   "(notification 6 2)", "hold-timer", "disconnected"):
+            alpha.append("(%s %s)" % (role, ev))
+    out = []
+    for local_rid in (1, 33686018, 167772161):        # lower, equal, higher than the remote identifier
+        for k in range(1, maxlen + 1):
+            for seq in itertools.product(alpha, repeat=k):
+                out.append("(case (cfg %d 65001 90 65002) (evs %s))" % (local_rid, " ".join(seq)))
+    return out
+
+
 def gen(seed, n, tier):
     r = Rng(seed * 1000003 + 7)
-    return [gen_case(r) for _ in range(n)]
+    cases = [gen_case(r) for _ in range(n)]
+    if tier == "thorough":
+        cases += exhaustive(4)       # 3 * (16 + 256 + 4096 + 65536) = 209,712 histories
+    else:
+        cases += exhaustive(2)       # 816 histories: every pair of events
+    return cases
